@@ -19,6 +19,7 @@ TEXT = {
  "C10": "Decided part: no panic (every implicit runtime check on every path is an obligation), no deadlock (engine-level detection on all schedules), lock discipline (Eraser-style lockset monitor over symbolic paths, per heap cell owned by pogreb), Close racing with every other method, every method on a closed DB. Not decided: the runtime race detector's verdict, memory faults on unmapped memory, goroutine leak / background worker.",
  "C12": "Bounded symbolic model checking with threads: Backup as one thread, a writer as another, schedule symbolic at lock acquisitions and at Backup's lock-free points; the copy is opened by the real recovery and compared (one disjunctive obligation over admissible prefixes); the source must be unaffected.",
  "C13": "Lock acquisition/release of fs.OS executed symbolically over a kernel model (stat/open/flock/unlink/close), every interleaving of the system calls of one releasing owner and 2-3 openers explored (scheduling points between the calls): at most one holder at any instant; counterexamples replayed on the real kernel. DB level: session sequences with clean/unclean/failed-recovery ends on fs.Mem: recovery iff unclean, contents preserved, competing Open rejected without touching the directory.",
+ "C17": "Differential symbolic execution: one symbolic program is run on fs.Mem (from its source), fs.OS and fs.OSMMap (over a kernel model with mmap views) inside the same path; every API result and the segment-file bytes must agree (SMT obligations over shared symbolic contents), no access to unmapped memory.",
  "C08": "Differential symbolic execution of recoveryIterator/segmentIterator (with bufio and io.ReadFull from stdlib SSA) against a reference decoder on segments whose tail bytes are fully symbolic: same accepted records, truncation to the accepted prefix, no error/panic, for all tail contents up to the stated length.",
  "C18": "Differential symbolic execution of the encoders/decoders against a reference written from docs/design.md; all contents symbolic, sizes case-split; MurmurHash3 compared as bit-vector terms for all inputs of each length.",
  "C19": "Every allocation executed during recovery of a segment with a fully symbolic damaged header is an SMT obligation size <= budget, the size being a symbolic expression of the header; unsat covers all 2^48 headers within the tail-length bound.",
